@@ -464,6 +464,9 @@ SPECIAL = [
     ('three-pollers', {'m0': {'cls': 'Poll'}, 'm1': {'cls': 'Poll', 'a1': 'm0', 'touch': 'init'}, 'm2': {'cls': 'Poll', 'p': 1.0}}),
     ('all-unexported', {'m0': {'cls': 'Poll', 'export': False, 'p': 1.5}, 'm1': {'cls': 'NoPoll', 'export': False}}),
     # several configured start values, one of the write methods failing
+    # configured start values equal to the declared default of the parameter / to its class-level start value
+    ('start-value-equal-to-default', {'m0': {'cls': 'Poll', 'p': 0.0, 'q': 2.5}, 'm1': {'cls': 'NoPoll', 'p': 0.0, 'q': 0.0}}),
+    ('start-value-equal-to-default-shared-io', {'m0': {'cls': 'WithIo', 'uri': 'x://1', 'p': 0.0}, 'm1': {'cls': 'WithIo', 'uri': 'x://1', 'q': 0.0}}),
     ('two-writes', {'m0': {'cls': 'Poll', 'p': 1.5, 'q': 2.5}, 'm1': {'cls': 'NoPoll', 'p': 3.5, 'q': 4.5}}),
     ('first-write-fails', {'m0': {'cls': 'Poll', 'p': 1.5, 'q': 2.5, 'wfail': 'p'}, 'm1': {'cls': 'Poll', 'p': 3.5}}),
     ('second-write-fails', {'m0': {'cls': 'Poll', 'p': 1.5, 'q': 2.5, 'wfail': 'q'}, 'm1': {'cls': 'Poll', 'p': 3.5}}),
